@@ -354,7 +354,68 @@ func c10Actions(r *sandbox.Repo) [][]string {
 	return acts
 }
 
+// c10Nested: a repository inside the working tree of another one (a vendored project; the outer repository is
+// initialised later -- init refuses to run beneath an existing one). Branch commands issued in the inner working
+// tree act on, and report, the inner repository: the nearest one.
+func c10Nested(c *core.Ctx) {
+	c.RunHistoriesAt(7_000_000, c.Pick(6, 24), func() []core.Monitor { return nil }, func(w *core.World) {
+		inner := pickS(w.Rng, []string{"vendor/lib", "third party/x", "inner"})
+		file := func(sn *sandbox.Snap, rel string) string {
+			return strings.TrimSpace(string(sn.Files["w/"+inner+"/.goit/"+rel]))
+		}
+		outer := func(sn *sandbox.Snap, rel string) (string, bool) {
+			b, ok := sn.Files["w/.goit/"+rel]
+			return strings.TrimSpace(string(b)), ok
+		}
+		w.Edit("mkdir", inner, nil)
+		w.GoitIn(inner, "init")
+		w.GoitIn(inner, "config", "user.name", "Inner")
+		w.GoitIn(inner, "config", "user.email", "inner@example.com")
+		w.Write(inner+"/f.txt", []byte("1\n"))
+		w.GoitIn(inner, "add", "f.txt")
+		w.GoitIn(inner, "commit", "-m", "inner one")
+		w.GoitIn(inner, "branch", "dev")
+		w.Write(inner+"/f.txt", []byte("2\n"))
+		w.GoitIn(inner, "add", "f.txt")
+		w.GoitIn(inner, "commit", "-m", "inner two")
+		w.Goit("init")
+		w.Goit("config", "user.name", "Outer")
+		w.Goit("config", "user.email", "outer@example.com")
+		w.Write("o.txt", []byte("o\n"))
+		w.Goit("add", "o.txt")
+		w.Goit("commit", "-m", "outer one")
+		trig := "nested-repository"
+		fail := func(sym, format string, a ...any) { w.Fail("C10.nested", sym, trig, format, a...) }
+		c.Oracle("C10.nested")
+		st := w.GoitIn(inner, "branch", "--list")
+		if st.Exit != 0 || !strings.Contains(st.Stdout, "dev") || !strings.Contains(st.Stdout, "main") {
+			fail("list-differs", "in the inner working tree %s prints %q (exit %d); the inner repository has the branches dev and main", st.String(), clipS(st.Stdout, 100), st.Exit)
+		}
+		c.Oracle("C10.nested")
+		st = w.GoitIn(inner, "rev-parse", "dev")
+		if want := file(st.Post, "refs/heads/dev"); st.Exit != 0 || strings.TrimSpace(st.Stdout) != want {
+			fail("revparse-differs", "in the inner working tree %s prints %q (exit %d); the inner branch dev holds %s", st.String(), clipS(st.Stdout, 80), st.Exit, want)
+		}
+		c.Oracle("C10.nested")
+		st = w.GoitIn(inner, "branch", "feature")
+		if _, inOuter := outer(st.Post, "refs/heads/feature"); st.Exit != 0 || file(st.Post, "refs/heads/feature") != file(st.Post, "refs/heads/main") || inOuter {
+			fail("valid-operation-not-applied", "in the inner working tree %s (exit %d): inner feature=%q main=%q, created in the outer repository: %v", st.String(), st.Exit, file(st.Post, "refs/heads/feature"), file(st.Post, "refs/heads/main"), inOuter)
+		}
+		c.Oracle("C10.nested")
+		st = w.GoitIn(inner, "switch", "dev")
+		if oh, _ := outer(st.Post, "HEAD"); st.Exit != 0 || file(st.Post, "HEAD") != "ref: refs/heads/dev" || oh != "ref: refs/heads/main" {
+			fail("valid-operation-not-applied", "in the inner working tree %s (exit %d): inner HEAD %q, outer HEAD %q", st.String(), st.Exit, file(st.Post, "HEAD"), oh)
+		}
+		c.Oracle("C10.nested")
+		st = w.GoitIn(inner, "branch", "-d", "feature")
+		if file(st.Post, "refs/heads/feature") != "" || st.Exit != 0 {
+			fail("valid-operation-not-applied", "in the inner working tree %s (exit %d) left the inner branch feature", st.String(), st.Exit)
+		}
+	})
+}
+
 func runC10(c *core.Ctx) {
+	c10Nested(c)
 	mons := Registry["C10"].Mons
 	// ---- explicit state-space exploration of the real binary
 	maxDepth := c.Pick(3, 4)
